@@ -289,6 +289,8 @@ InstC15(h) ==
       rf \in refs, s \in starts, n \in lens, rp \in repls, ng \in Bools, nr \in Bools}
   \cup {Inst("MaskOccurences", r, [ref |-> rf, max |-> m, repl |-> rp]) : rf \in refs, m \in 0..(Len(o.rows) + 1), rp \in repls}
   \cup {Inst("MaskUnique", r, [ref |-> rf, repl |-> rp]) : rf \in refs, rp \in repls}
+  \cup {Inst("MaskPositions", r, [ref |-> rf, pos |-> ps, repl |-> rp, nogap |-> ng, noref |-> FALSE]) :
+           rf \in {<<>>, <<114, 50>>}, ps \in {<<0, 1>>, <<1, 0>>, <<0, 2, 1>>, <<W - 1>>, <<0, W>>, <<1, 1>>}, rp \in {sGAP, sMAJ, <<>>}, ng \in Bools}
 \* C19: a copy-producing or read-only operation, then a mutation of any live object (original or copy)
 Queries == {"fasta", "phylip", "nexus", "clustal", "stockholm", "paml", "dist", "protdist", "sw", "swatg", "orf", "string", "phaseref", "phasentref"}
 InstC19(h) ==
